@@ -72,13 +72,15 @@ def run_differential(prog, script, fail: Callable[[str, Optional[str]], None], c
     ok = True
     pending_sub = None
 
-    def host_check(label, handle_key, host, expected):
+    def host_check(label, handle_key, host, expected, obj=None):
         nonlocal ok
-        if host is not None and handle_key not in first_read:
-            first_read[handle_key] = host
+        # the cache lives in the handle *object* (two Future objects for the same entry cache independently)
+        ck = (handle_key, id(obj))
+        if host is not None and ck not in first_read:
+            first_read[ck] = host
         if host != expected:
             ok = False
-            key = KF_CACHE if (handle_key in first_read and host == first_read[handle_key] and host is not None
+            key = KF_CACHE if (ck in first_read and host == first_read[ck] and host is not None
                                and handle_key[0] != "array") else None
             fail(f"after flush {label}: host reads {handle_key[0]} {handle_key[1:]} = {host} but the controller holds {expected}", key)
 
@@ -193,13 +195,13 @@ def run_differential(prog, script, fail: Callable[[str, Optional[str]], None], c
                         host_check(si, ("array", name), list(host) if host is not None else None, snap["arrays"][name])
                 for (aname, i), fut in drv.entry_handles.items():
                     if aname in snap["arrays"]:
-                        host_check(si, ("future", aname, i), fut.value, snap["arrays"][aname][i])
+                        host_check(si, ("future", aname, i), fut.value, snap["arrays"][aname][i], fut)
                 for name, fut in drv.futs.items():
                     if name in snap["arrays"] and getattr(fut, "_index", None) == 0 and isinstance(fut._index, int):
-                        host_check(si, ("future", name, 0), fut.value, snap["arrays"][name][0])
+                        host_check(si, ("future", name, 0), fut.value, snap["arrays"][name][0], fut)
                 for name, h in drv.regs.items():
                     if name in frozen_regs:
-                        host_check(si, ("regfuture", name), h.value, frozen_regs[name])
+                        host_check(si, ("regfuture", name), h.value, frozen_regs[name], h)
                 count("host_handles_read", len(drv.arrays) + len(drv.entry_handles) + len(drv.futs) + len(frozen_regs))
                 if on_segment is not None:
                     on_segment(si, pipe, drv)
